@@ -262,6 +262,29 @@ func c06(c *Ctx) {
 			c.ruleOrder("C06.3/preconditions-in-lock", f, "WaitForIndexingUpto", callTo(storeT+"WaitForIndexingUpto"), "checkPreconditions", callTo(otxT+"checkPreconditions"), nil, 1)
 		}
 	}
+	// read transactions opened by the database layer start from the store's default options: those carry the snapshot
+	// floor (the snapshot must include the last precommitted tx, i.e. every write that has returned); a hand-made
+	// TxOptions literal has no floor and is served from whatever index root was dumped last
+	rt := "C06.1/tx-options-carry-snapshot-floor"
+	nt := 0
+	for _, in := range c.callSites(callTo(storeT+"NewTx", "pkg/database.(*db).newTx")) {
+		if !fnInPkgs(in.Parent(), []string{"pkg/database"}) {
+			continue
+		}
+		nt++
+		a := callOf(in).Args
+		opt := a[len(a)-1]
+		fromDefault := dependsOn(opt, func(v ssa.Value) bool {
+			cl, ok := v.(*ssa.Call)
+			return ok && calleeName(&cl.Call) == "embedded/store.DefaultTxOptions"
+		})
+		_, isParam := opt.(*ssa.Parameter)
+		c.check(fromDefault || isParam, rt, fmt.Sprintf("%s:NewTx#%d", fnName(in.Parent()), idxAmong(in, callTo(storeT+"NewTx", "pkg/database.(*db).newTx"))), c.pos(in.Pos()),
+			"options derive from store.DefaultTxOptions()", "a transaction is opened with options that do not derive from store.DefaultTxOptions() ("+desc(opt)+"): its snapshot is not required to include the writes that have already returned")
+	}
+	if nt < 2 {
+		c.undecided(rt, "floor", fmt.Sprintf("%d store transactions opened by pkg/database found", nt))
+	}
 	// check-then-write handlers: an existence pre-check on the index followed by the commit of a write-only
 	// transaction (no read-set, so nothing is validated at commit) is atomic only under the exclusive database lock,
 	// which keeps out Set/Delete/ExecAll (they hold the shared lock for their whole commit)
